@@ -144,6 +144,7 @@ func c11Check(cs c11Case) (clause, detail string) {
 }
 
 func c11Run(c *fw.Ctx) {
+	c11Sched(c)
 	cat := catalogue()
 	var valid []reqItem
 	perCmd := map[string]int{}
@@ -279,6 +280,13 @@ func c11Run(c *fw.Ctx) {
 }
 
 func c11Replay(raw json.RawMessage) (string, bool, error) {
+	var probe struct {
+		Kind string `json:"kind"`
+	}
+	json.Unmarshal(raw, &probe)
+	if probe.Kind == "beside-stalled-reader" {
+		return c11SchedReplay(raw)
+	}
 	var cs c11Case
 	if err := json.Unmarshal(raw, &cs); err != nil {
 		return "", false, err
